@@ -1526,7 +1526,10 @@ class InBodyPhase(Phase):
 
             if commonAncestor.name in frozenset(("table", "tbody", "tfoot", "thead", "tr")):
                 parent, insertBefore = self.tree.getTableMisnestedNodePosition()
-                parent.insertBefore(lastNode, insertBefore)
+                if insertBefore is None:
+                    parent.appendChild(lastNode)
+                else:
+                    parent.insertBefore(lastNode, insertBefore)
             else:
                 commonAncestor.appendChild(lastNode)
 
